@@ -466,6 +466,21 @@ def main(H, argv=None):
     if "leanchecker" in info:
         cov["leanchecker"] = info["leanchecker"]
     cov.update(ctx.extra)
+    # keep schema-typed keys well-typed whatever a harness put into ctx.extra
+    if "exhaustive" in cov and not isinstance(cov["exhaustive"], bool):
+        cov["exhaustive_detail"] = cov["exhaustive"]
+        cov["exhaustive"] = bool(cov["exhaustive"])
+    for k in ("states", "transitions", "traces_validated_against_impl", "programs", "disagreements_checked"):
+        if k in cov and not (isinstance(cov[k], int) and not isinstance(cov[k], bool) and cov[k] >= 0):
+            cov[k + "_detail"] = cov.pop(k)
+    if "explanation" in cov and not isinstance(cov["explanation"], str):
+        cov["explanation"] = json.dumps(cov["explanation"], default=str)
+    for k in ("obligations", "discharged", "checker_cmd", "trusted_base", "evaluations", "distinct_nontrivial", "rule", "samples"):
+        pass  # set above from measured values; ctx.extra must not override them
+    cov["obligations"], cov["discharged"] = obligations, discharged
+    cov["evaluations"], cov["distinct_nontrivial"] = ctx.evaluations, len(ctx.distinct)
+    if not isinstance(cov.get("samples"), list) or not cov["samples"]:
+        cov["samples"] = [{"theorems": names[:5]}]
     ev = {"property_id": prop, "tier": tier, "seed": seed, "level": "proof", "coverage": cov,
           "assumptions": list(getattr(H, "ASSUMPTIONS", [])), "wall_s": round(time.time() - ctx.t0, 2),
           "violations": len(seen_sigs) + (1 if (not new_failures and exit_code) else 0)}
